@@ -148,8 +148,20 @@ func registerIntrinsics(e *Engine) {
 		st.VisibleAtomics = args[0].(*smt.Term).IsTrue()
 		return nil, true
 	}
+	// AdvanceClock(n): time passes (n seconds of the concrete clock).
+	I[nd+"AdvanceClock"] = func(e *Engine, st *State, th *Thread, args []Value, call *ssa.CallCommon) (Value, bool) {
+		n := args[0].(*smt.Term)
+		if !n.IsConst() {
+			e.unsupported("AdvanceClock with a symbolic amount")
+		}
+		st.ClockTick += int64(n.Val)
+		return nil, true
+	}
 	I[nd+"Symbolic"] = func(e *Engine, st *State, th *Thread, args []Value, call *ssa.CallCommon) (Value, bool) {
 		return e.C.True, true
+	}
+	I[nd+"Unit"] = func(e *Engine, st *State, th *Thread, args []Value, call *ssa.CallCommon) (Value, bool) {
+		return e.i64(1000000000), true
 	}
 	I[nd+"Assume"] = func(e *Engine, st *State, th *Thread, args []Value, call *ssa.CallCommon) (Value, bool) {
 		c := args[0].(*smt.Term)
